@@ -17,23 +17,25 @@ from vlib import log
 
 # profile plans: (profile, runs_quick, runs_thorough)
 PLANS = {
-    "C01": [("core", 4, 40), ("crashy", 4, 40), ("learners", 2, 25), ("snap", 4, 30), ("conf", 3, 30), ("single", 2, 25), ("reelect", 4, 40), ("prevote", 2, 20)],
-    "C02": [("core", 4, 40), ("crashy", 4, 40), ("prevote", 4, 30), ("conf", 3, 30), ("joint", 3, 30), ("transfer", 4, 30), ("contend", 4, 30), ("contendpv", 4, 30)],
-    "C03": [("core", 4, 40), ("crashy", 4, 40), ("snap", 3, 30), ("prevote", 4, 30), ("five", 2, 20), ("transfer", 4, 30)],
-    "C04": [("async", 4, 40), ("crashy", 4, 40), ("joint", 5, 40), ("five", 2, 25), ("single", 2, 20), ("reelect", 5, 40)],
-    "C05": [("core", 5, 40), ("flow", 5, 40), ("single", 3, 30), ("crashy", 4, 40)],
-    "C06": [("async", 5, 40), ("single", 3, 40), ("crashy", 4, 40), ("prevote", 2, 30), ("shrink", 2, 30), ("contend", 4, 30), ("transfer", 3, 30)],
-    "C07": [("async", 5, 40), ("flow", 4, 40), ("snap", 4, 30), ("single", 2, 30), ("conf", 2, 20), ("contend", 5, 40)],
-    "C08": [("read", 8, 80), ("readjoint", 8, 80)],
-    "C09": [("conf", 5, 40), ("joint", 5, 40), ("confv1", 4, 40), ("shrink", 3, 30), ("transfer", 4, 30)],
+    "C01": [("core", 3, 40), ("crashy", 3, 40), ("learners", 2, 25), ("snap", 3, 30), ("conf", 2, 30), ("single", 2, 25), ("reelect", 2, 40), ("prevote", 2, 20), ("s_reelect", 4, 40), ("s_lagsnap", 2, 20)],
+    "C02": [("core", 3, 40), ("crashy", 3, 40), ("prevote", 3, 30), ("conf", 2, 30), ("joint", 2, 30), ("transfer", 3, 30), ("contend", 4, 30), ("contendpv", 4, 30), ("s_transfer", 4, 40)],
+    "C03": [("core", 3, 40), ("crashy", 3, 40), ("snap", 3, 30), ("prevote", 3, 30), ("five", 2, 20), ("transfer", 3, 30), ("s_transfer", 5, 40), ("s_reelect", 2, 20)],
+    "C04": [("async", 3, 40), ("crashy", 3, 40), ("joint", 4, 40), ("five", 2, 25), ("single", 2, 20), ("reelect", 3, 40), ("s_reelect", 5, 40), ("s_confmix", 4, 40)],
+    "C05": [("core", 3, 40), ("flow", 4, 40), ("single", 2, 30), ("crashy", 3, 40), ("s_flowelect", 4, 40), ("s_reelect", 3, 30)],
+    "C06": [("async", 4, 40), ("single", 3, 40), ("crashy", 3, 40), ("prevote", 2, 30), ("shrink", 2, 30), ("contend", 4, 30), ("transfer", 2, 30), ("s_transfer", 2, 20)],
+    "C07": [("async", 4, 40), ("flow", 3, 40), ("snap", 3, 30), ("single", 2, 30), ("conf", 2, 20), ("contend", 4, 40), ("s_lagsnap", 3, 30)],
+    "C08": [("read", 5, 80), ("readjoint", 4, 80), ("s_staleread", 8, 80), ("s_stalereadjoint", 8, 80)],
+    "C09": [("conf", 4, 40), ("joint", 4, 40), ("confv1", 3, 40), ("shrink", 2, 30), ("transfer", 2, 30), ("s_confmix", 6, 60), ("s_transfer", 4, 40)],
     "C10": [("live", 10, 80)],
-    "C13": [("flow", 10, 80), ("snap", 5, 40)],
-    "C15": [("snap", 12, 100), ("conf", 2, 20)],
+    "C13": [("flow", 6, 80), ("snap", 3, 40), ("s_lagsnap", 6, 60), ("s_flowelect", 6, 60)],
+    "C15": [("snap", 6, 100), ("conf", 2, 20), ("s_lagsnap", 10, 100)],
     "C16": [("prevote", 6, 80), ("checkquorum", 3, 40), ("lease3", 5, 100), ("lease5", 7, 100)],
-    "C17": [("transfer", 10, 80), ("live", 3, 30)],
-    "C20": [("core", 2, 15), ("async", 2, 15), ("crashy", 3, 20), ("single", 2, 15), ("shrink", 3, 25), ("flow", 2, 15),
-            ("snap", 3, 20), ("conf", 2, 15), ("joint", 2, 15), ("confv1", 2, 15), ("read", 1, 10), ("transfer", 2, 15),
-            ("prevote", 2, 15), ("live", 1, 10), ("five", 1, 10), ("learners", 1, 10), ("readjoint", 2, 15), ("reelect", 1, 10)],
+    "C17": [("transfer", 6, 80), ("live", 2, 30), ("s_transfer", 8, 80)],
+    "C20": [("core", 1, 15), ("async", 2, 15), ("crashy", 2, 20), ("single", 2, 15), ("shrink", 2, 25), ("flow", 2, 15),
+            ("snap", 2, 20), ("conf", 2, 15), ("joint", 3, 15), ("confv1", 2, 15), ("read", 2, 10), ("transfer", 2, 15),
+            ("prevote", 1, 15), ("live", 1, 10), ("five", 1, 10), ("learners", 1, 10), ("readjoint", 2, 15), ("reelect", 1, 10),
+            ("s_staleread", 2, 15), ("s_stalereadjoint", 1, 15), ("s_lagsnap", 3, 20), ("s_transfer", 2, 15), ("s_reelect", 1, 10),
+            ("s_flowelect", 1, 10), ("s_confmix", 3, 20)],
 }
 CHECKS = set(PLANS.keys())
 
@@ -245,6 +247,54 @@ def run(pid, tier, seed, replay, t0):
                                    "profile": st.get("profile", label), "seed": st.get("seed", 0), "job": job[0],
                                    "src": job[1] if job[0] != "gen" else None})
 
+    # drift-guided exploration: where the real code left the specification, explore the neighbourhood of that
+    # execution (same prefix, new random continuations) and judge those executions too
+    explored = 0
+    if drifts and not replay:
+        seen = set()
+        srcs = []
+        for d in drifts:
+            st = None
+            key = (d["source"], d["run"])
+            if key in seen:
+                continue
+            seen.add(key)
+            srcs.append(d)
+        for d in srcs[:4]:
+            tr = os.path.join(outdir, "%s.ndjson" % d["source"])
+            if not os.path.exists(tr):
+                continue
+            seed_of_run = None
+            with open(tr) as f:
+                for line in f:
+                    if '"ev":"Reset"' in line[:60]:
+                        e = json.loads(line)
+                        if e["run"] == d["run"]:
+                            seed_of_run = e["seed"]
+                            break
+            chf = os.path.join(outdir, "choices", "%s-%s.json" % (d["source"], seed_of_run))
+            if seed_of_run is None or not os.path.exists(chf):
+                continue
+            trace = os.path.join(outdir, "explore-%s-%s.ndjson" % (d["source"], seed_of_run))
+            sdir = os.path.join(outdir, "choices-explore-%s-%s" % (d["source"], seed_of_run))
+            n_ev = vlib.simrun_resume(chf, d["seq"] + 2, "explore", seed * 7919 + 17, 6 if tier == "quick" else 30,
+                                      300, trace, sdir)
+            res = vlib.tlc_trace(trace, os.path.join(outdir, "md"))
+            total_states += res["states"]
+            total_events += n_ev
+            traces += 1
+            explored += 1
+            per_profile.append({"source": "explore:" + d["source"], "events": n_ev, "tlc_states": res["states"],
+                                "drift": len(res["drift"]),
+                                "violations_all_properties": sum(len(v["names"]) for v in res["violations"])})
+            stats = run_stats(vlib.load_trace(trace))
+            for v in res["violations"]:
+                for nm in [nm for nm in v["names"] if nm.startswith(pid + ".")]:
+                    st = stats.get(v["run"], {})
+                    violations.append({"name": nm, "trace": trace, "run": v["run"], "seq": v["seq"], "profile": "explore",
+                                       "seed": st.get("seed", 0), "job": "explore",
+                                       "src": os.path.join(sdir, "explore-%s.json" % st.get("seed", 0))})
+
     # classify against known findings (none suppress unless listed)
     rc = 0
     reported = set()
@@ -314,6 +364,7 @@ def run(pid, tier, seed, replay, t0):
         "impl_events_judged_by_tlc": total_events,
         "antecedent_counters": agg,
         "directed_schedule_choices_refused_by_impl": n_directed_skipped,
+        "drift_guided_explorations": explored,
         "conformance_divergences": len(drifts),
         "conformance_divergence_samples": drifts[:5],
         "conformance_note": "every event's successor is also computed by spec/Node.tla+RawNodeOps.tla from the previous implementation state and compared field by field with the projected implementation state (DRIFT lines); drift is not a violation",
